@@ -169,7 +169,11 @@ def main():
     evaluations = sum(r.get("evaluations", 0) for r in reports)
     distinct = sum(r.get("distinct_nontrivial", 0) for r in reports)
     disagreements = [dict(d, stream=r["stream"]) for r in reports for d in r.get("disagreements", [])]
-    oracle_failures = [dict(d, stream=r["stream"]) for r in reports for d in r.get("oracle_failures", [])]
+    all_oracle_failures = [dict(d, stream=r["stream"]) for r in reports for d in r.get("oracle_failures", [])]
+    # a check raises violations only for its own property; failures of other properties' oracles seen on the
+    # way are recorded in the evidence (their own checks decide them)
+    oracle_failures = [f for f in all_oracle_failures if f["signature"].startswith(prop + "/")]
+    other_failures = sorted({f["signature"] for f in all_oracle_failures if not f["signature"].startswith(prop + "/")})
     for d in disagreements[:5]:
         broken.append(("K", d.get("stream", "?"), json.dumps(d)[:600]))
     # 6. decide
@@ -220,6 +224,7 @@ def main():
             "disagreements_checked": len(disagreements),
             "oracle_failures_listed": sorted(listed), "oracle_failures_unlisted": sorted({f["signature"] for f in unlisted}),
             "skipped": [s for r in reports for s in r.get("skipped", [])],
+            "other_property_oracle_failures_seen": other_failures,
             "leanchecker": leanchecker,
             "broken_obligations": [{"kind": k, "name": n} for k, n, _ in broken],
         },
